@@ -164,7 +164,9 @@ func decodeUnicode(s *Stream, p unsafe.Pointer) (unsafe.Pointer, error) {
 	unicodeLen := int64(len(unicode))
 	s.buf = append(append(s.buf[:s.cursor-1], unicode...), s.buf[s.cursor+offset:]...)
 	unicodeOrgLen := offset - 1
-	s.length = s.length - (backSlashAndULen + (unicodeOrgLen - unicodeLen))
+	shrunk := backSlashAndULen + (unicodeOrgLen - unicodeLen)
+	s.length -= shrunk
+	s.offset += shrunk // the window lost bytes in front of the cursor: the input offset does not move back
 	s.cursor = s.cursor - backSlashAndULen + unicodeLen
 	return pp, nil
 }
@@ -202,6 +204,7 @@ RETRY:
 	}
 	s.buf = append(s.buf[:s.cursor-1], s.buf[s.cursor:]...)
 	s.length--
+	s.offset++ // the window lost the backslash in front of the cursor: the input offset does not move back
 	s.cursor--
 	p = s.bufptr()
 	return p, nil
@@ -254,6 +257,7 @@ func stringBytes(s *Stream) ([]byte, error) {
 			_, _, p = s.stat()
 			cursor += runeErrBytesLen
 			s.length += runeErrBytesLen - 1 // one invalid byte was replaced
+			s.offset -= runeErrBytesLen - 1 // the window grew in front of the cursor, the input did not
 			continue
 		case nul:
 			s.cursor = cursor
@@ -285,6 +289,7 @@ func stringBytes(s *Stream) ([]byte, error) {
 				s.buf = append(append(append([]byte{}, s.buf[:cursor]...), runeErrBytes...), s.buf[cursor+1:]...)
 				cursor += runeErrBytesLen
 				s.length += runeErrBytesLen - 1 // one invalid byte was replaced
+				s.offset -= runeErrBytesLen - 1 // the window grew in front of the cursor, the input did not
 				_, _, p = s.stat()
 			} else {
 				cursor += int64(size)
